@@ -32,7 +32,7 @@ PROPS["C02"] = dict(
 
 PROPS["C03"] = dict(
     level="proof",
-    verus=["c02_dispatch"],
+    verus=["c02_dispatch", "c03_parse_mask"],
     labels=["C03."] + MASK,
     kani=[KaniSet("src/filters/network_matchers.rs", "c03_options.rs", [
         Harness("c03_options_nodomain", "C03.options.nodomain", "C", "full domain: 2^32 masks x 17 request types x scheme x party; loop-free"),
@@ -42,7 +42,7 @@ PROPS["C03"] = dict(
         KaniSet("src/request.rs", "c03_request.rs", [
             Harness("c03_request_classify", "C03.request.classify", "C", "every (type alias, scheme, party) of the 24-entry alias table x 9 schemes; string loops bounded by the longest literal (unwind 20, unwinding assertions on)"),
         ])],
-    trusted=["option text -> mask construction in NetworkFilter::parse (closure + macro_rules!) except the blocks under contract",
+    trusted=["option text -> (positive, negated) type masks in NetworkFilter::parse (closure + macro_rules!); only the two pure bit-mask blocks after it are under contract (R7 block lifts)",
              "seahash injectivity for domain hashes"],
     assumptions=[],
     level_text="Kani/CBMC proves check_options equal to a reference written from the option semantics for every 32-bit mask, request type, scheme and party "
@@ -143,22 +143,24 @@ PROPS["C10"] = dict(
 
 PROPS["C18"] = dict(
     level="proof",
-    verus=["c18_gate"],
+    verus=["c18_gate", "c18_stringify"],
     labels=["C18.", "C13.redirect_resource.", "C13.kind."],
     kani=[KaniSet("src/resources/mod.rs", "c18_perm.rs", [
         Harness("c18_perm_subset", "C18.perm.subset", "C", "all 256x256 pairs; loop over the 8 bit positions fully unwound"),
         Harness("c18_perm_default", "C18.perm.default", "C", "all u8 x u8, loop-free"),
     ])],
     trusted=["name/alias lookup in ResourceStorage (HashMap<String,_> probed by &str) uninterpreted",
-             "argument-list parsing, template rendering, stringify_arg, base64 decoding: lifted (R6) in the gate proof",
+             "argument-list parsing, template rendering, base64 decoding: lifted (R6) in the gate proof",
+             "stringify_arg: only its escaping core write_string_complex and the ESCAPED table are under contract; the surrounding fast path (labelled block: outside the Verus subset) and the quotes are not",
+             "core::fmt: format!(\"{:04x}\", byte) is zero-padded lower-case hex (axiom for that literal only)",
              "Iterator::find over a slice returns an element of the slice (vf_iter shim)",
              "termination of recursive_dependencies on cyclic graphs is NOT proved (exec_allows_no_decreases_clause)",
              "per-host merge of injections / exceptions in cosmetic_filter_cache.rs is not under contract"],
     assumptions=["scriptlet argument lists stored in rules parse (established at rule parse time)"],
     level_text="Kani/CBMC proves the permission subset test over all 256x256 pairs; Verus proves that a scriptlet, and every dependency added to the page's list, is handed out only when every bit it requires "
-               "was granted to the requesting list (for any dependency graph, any prior list contents), that only injectable kinds are injected, and that a resource requiring any permission or of a "
-               "non-redirectable kind is never served as a redirect",
-    level_note="argument encoding (stringify_arg) is not yet under contract: the real format! makes the Kani harness exceed 15 min (measured); see DESIGN",
+               "was granted to the requesting list (for any dependency graph, any prior list contents), that only injectable kinds are injected, that a resource requiring any permission or of a "
+               "non-redirectable kind is never served as a redirect, and that the escaping core of stringify_arg writes, byte for byte, the JSON escape of the argument, each escape decoding back to its byte (all strings)",
+    level_note="argument-list parsing (parse_scriptlet_args) and the per-host merge are not under contract",
     design_ref="DESIGN.md section 4, C18",
 )
 
